@@ -216,7 +216,7 @@ func init() {
 			if len(v) == 0 {
 				return one(MInt(0), n)
 			}
-			if off+int64(len(v)) > maxStr {
+			if off > maxStr-int64(len(v)) {
 				return errOut(n)
 			}
 			buf := make([]byte, off+int64(len(v)))
@@ -227,7 +227,7 @@ func init() {
 		if len(v) == 0 {
 			return one(MInt(int64(len(e.Str))), n)
 		}
-		if off+int64(len(v)) > maxStr {
+		if off > maxStr-int64(len(v)) {
 			return errOut(n)
 		}
 		need := off + int64(len(v))
